@@ -81,6 +81,28 @@ def r_django_captured(prog):
     return (not prog["isolated"]) and any(n["t"] == "comp" and fill_under_ctl(n["body"], False) for n in nodes_of(prog))
 
 
+def r_isolated_captured_under_data(prog):
+    """isolated mode: a component tag written in component d's template, a fill under a {% with %} / {% for %} that
+    binds a name d's data also defines"""
+    def bound_over_fill(nodes, bound):
+        for n in nodes:
+            if n["t"] == "fill" and bound:
+                yield set(bound)
+            elif n["t"] in ("with", "for"):
+                yield from bound_over_fill(n["body"], bound + [n["x"]])
+            elif n["t"] == "if":
+                yield from bound_over_fill(n["a"], bound)
+                yield from bound_over_fill(n["b"], bound)
+    if not prog["isolated"]:
+        return False
+    for d in prog["lib"]:
+        names = {k for k, _ in d["data"]}
+        for n in tplgen.walk(d["template"]):
+            if n["t"] == "comp" and any(b & names for b in bound_over_fill(n["body"], [])):
+                return True
+    return False
+
+
 def r_parentloop_in_fill(prog):
     for n in nodes_of(prog):
         if n["t"] == "fill":
@@ -119,6 +141,7 @@ REGIONS = {
     "captured-parentloop-aliased": r_parentloop_in_fill,
     "default-alias-render-sees-fill-aliases": lambda p: p["isolated"] and r_default_alias_print(p),
     "django-captured-over-data": r_django_captured,
+    "isolated-captured-under-enclosing-data": r_isolated_captured_under_data,
     "django-slot-owner-override": r_django_nested,
     "django-only-fill-loses-outer": r_django_only_fill,
     "forloop-layer-leaks-into-isolated": r_forloop_leak,
